@@ -551,3 +551,115 @@ def run_linbuf(prog, ctx=None):
     if "LIN:_mpt_buffer_alloc:POST" not in agg:
         raise Broken("LINBUF: allocation contract has no implementation to check (_mpt_buffer_alloc)")
     return res
+
+
+# =====================================================================================================================
+# LINIDENT (C16): identifiers — inline area of _max bytes at _val, external block of _len bytes when _len > _max
+# =====================================================================================================================
+IDENT_RECORDS = ("mpt_identifier", "mpt::identifier")
+
+
+def ident_inv(an, st, obj, prefix, assume):
+    ln = st.env.get(("f", obj, prefix + "_len"))
+    mx = st.env.get(("f", obj, prefix + "_max"))
+    if assume:
+        if obj is None:
+            return None
+        # the inline area: at least the declared 4 bytes, at least _max bytes
+        sz = an.fresh(st, "inline")
+        st.add(sz - Lin.const(4))
+        st.add(sz - mx)
+        st.env[("f", obj, prefix + "_val")] = Ptr(Region("inline(%s%s)" % (obj, prefix.rstrip(".")), sz, "storage"), Lin.const(0))
+        # external content (only meaningful while _len > _max): a block of _len bytes
+        st.env[("f", obj, prefix + "_base")] = Ptr(Region("external(%s%s)" % (obj, prefix.rstrip(".")), ln, "storage"), Lin.const(0), True)
+        return None
+    if not (isinstance(ln, Lin) and isinstance(mx, Lin)):
+        return [("identifier fields known", False)]
+    res = []
+    val = st.env.get(("f", obj, prefix + "_val"))
+    if isinstance(val, Ptr) and val.region is not None:
+        res.append(("_max <= inline bytes", st.entails(val.region.size - mx)))
+    else:
+        res.append(("inline area known", False))
+    if not st.entails(mx - ln):
+        # long content: _base is a block of at least _len bytes
+        b = st.env.get(("f", obj, prefix + "_base"))
+        ok = isinstance(b, Ptr) and b.region is not None and st.entails_eq(b.off, Lin.const(0)) and st.entails(b.region.size - ln)
+        res.append(("long content: _base holds _len bytes", ok))
+    return res
+
+
+IDENT_CONTRACTS = {
+    "mpt_identifier_set": {"name": ("bytes", "len", True, (1 << 31) - 1)},      # the length parameter is an int: names are shorter than INT_MAX
+}
+
+
+def _ident_root(i):
+    prog, roots, fileset = _G["prog"], _G["roots"], _G["fileset"]
+    f = roots[i]
+    agg, undecided, stats = {}, set(), {}
+    an = LinAnalysis(prog, invariants={r: ident_inv for r in IDENT_RECORDS}, contracts=IDENT_CONTRACTS)
+    an.flex = {r: ("_val", 4) for r in IDENT_RECORDS}
+    an.max_returns = 16
+    an.state_budget = 6000
+    an.policy = (lambda fr, g: "inline" if g.file in fileset else "modular")
+    if f.name == "mpt_identifier_init":
+        # initialiser: the object is `len` bytes of raw memory, nothing is assumed about its fields
+        def pre(an2, st, fr):
+            lv = None
+            for p in f.params:
+                if p["n"] == "len":
+                    lv = st.env.get(("v", fr.id, p["id"]))
+            if isinstance(lv, Lin):
+                st.add(lv - Lin.const(4))        # shorter objects are left alone by the function: nothing to show
+                st.env[("f", "P.id", "_val")] = Ptr(Region("inline(P.id)", lv - Lin.const(4), "storage"), Lin.const(0))
+        an.pre_run = pre
+    if f.name == "_identifier_init":
+        # element constructor of the type traits: raw memory of sizeof(identifier) bytes
+        def pre2(an2, st, fr):
+            R = prog.records.get("mpt_identifier") or {}
+            an2.nobj += 1
+            obj = "N%d" % an2.nobj
+            an2._name_subobjects("mpt_identifier", obj, "")
+            st.env[("f", obj, "_val")] = Ptr(Region("inline(%s)" % obj, Lin.const(R.get("size", 16) - 4), "storage"), Lin.const(0))
+            st.env[("v", fr.id, f.params[0]["id"])] = ObjPtr(obj, "")
+        an.pre_run = pre2
+    entry, fr, outs = an.analyse_root(f)
+    for k in ("states", "paths", "inlined"):
+        stats[k] = an.stats.get(k, 0)
+    _merge_obls(an, f, agg, undecided, stats)
+    if an.over_budget:
+        undecided.add("LIN:%s:budget" % f.name)
+        return {"agg": agg, "undecided": undecided, "stats": stats, "assumed": an.assumed, "cut": f.name}
+    inv_ok, inv_det, nb = True, "", 0
+    for st, v in outs:
+        objs = []
+        for p in f.params:
+            pv = st.env.get(("v", fr.id, p["id"]))
+            if isinstance(pv, ObjPtr) and an.objrec.get((pv.obj, pv.prefix)) in IDENT_RECORDS:
+                objs.append((pv, p["n"]))
+        if isinstance(v, ObjPtr) and an.objrec.get((v.obj, v.prefix)) in IDENT_RECORDS:
+            objs.append((v, "result"))
+        for pv, text in objs:
+            nb += 1
+            bad = [t for t, o in ident_inv(an, st, pv.obj, pv.prefix, False) if not o]
+            if bad and not st.joined:
+                inv_ok = False
+                inv_det = "%s: %s not shown at return on path %s" % (text, ", ".join(bad), " / ".join(st.trail[-8:]))
+            elif bad:
+                undecided.add("LIN:%s:INV" % f.name)
+    if nb:
+        agg["LIN:%s:INV" % f.name] = [inv_ok, FRef(f), f.line, inv_det, True]
+    return {"agg": agg, "undecided": undecided, "stats": stats, "assumed": an.assumed, "cut": None}
+
+
+def run_linident(prog, ctx=None):
+    res = Result("LINIDENT")
+    files = [x for x in (ctx.get("files", []) if ctx else []) if x.endswith("identifier.c")]
+    roots = sorted([f for f in prog.funcs_in(files) if not f.nocfg], key=lambda f: (f.file, f.line))
+    if len(roots) < 6:
+        raise Broken("LINIDENT: only %d functions in identifier.c" % len(roots))
+    _G.update(prog=prog, roots=roots, fileset=set(files))
+    parts = _parallel(_ident_root, len(roots))
+    _collect(res, parts)
+    return res
